@@ -96,6 +96,7 @@ CONFIG["C05"] = {
 }
 
 CONFIG["C04"] = {
+    "hang_is_violation": True,
     "budget_s": {"quick": 300, "thorough": 420},
     "floor": {"quick": 11305, "thorough": 33915},
     "rule": ("a case is a combinator DAG: (i) arbitrary bottom-up random DAGs of 2..40 (thorough 200) nodes over all combinators, words, fail, witness, disconnect with and without branch and "
